@@ -41,7 +41,7 @@ pub struct Options {
     /// The BIP-44 account index that should of the account whose private key
     /// should match the vanity prefix specifed in "--vanity-prefix".
     #[clap(long, default_value_t = 0)]
-    vanity_account_index: usize,
+    vanity_account_index: u32,
 
     /// Manually specified HD path for deriving the account key that should
     /// match the vanity prefix. This option can not be used in conjunction
